@@ -427,6 +427,158 @@ def k_dataparser_chunks(ctx):
 
 
 # ------------------------------------------------------------------------------------------------
+# K: the attribute layer (tables regenerated from the process_* handlers and from xml/gama-local.xsd)
+
+ATTR_VALUE = {"axes-xy": "ne", "angles": "left-handed", "epoch": "2020.5", "sigma-apr": "7.5", "conf-pr": "0.9", "tol-abs": "500", "sigma-act": "apriori",
+              "algorithm": "gso", "language": "en", "encoding": "utf-8", "angular": "400", "latitude": "50", "ellipsoid": "wgs84", "cov-band": "-1",
+              "distance-stdev": "5 3 1", "direction-stdev": "10", "angle-stdev": "10", "zenith-angle-stdev": "10", "azimuth-stdev": "10",
+              ("parameters", "angles"): "400", "fix": "xy", "adj": "xy", "id": "Q", "from": "A", "to": "B", "bs": "B", "fs": "C", "rs": "C", "extern": "e1", "version": "2.0"}
+UNDEF_ATTR = re.compile(r"undefined attribute|unknown parameter")
+
+
+def attr_value(el, a):
+    return ATTR_VALUE.get((el, a), ATTR_VALUE.get(a, "1.5"))
+
+
+def attr_tables():
+    """(state, tag) -> names or None, and element -> [(attribute, required)], read back from the regenerated GkfGen.v"""
+    s = open(os.path.join(vlib.COQ, "GkfGen.v")).read()
+    tbl = {}
+    for m in re.finditer(r"\| (state_\w+), (tag_\w+) => (None|Some \[([^\]]*)\])", s):
+        tbl[(m.group(1), m.group(2))] = None if m.group(3) == "None" else re.findall(r'"([^"]*)"', m.group(4) or "")
+    xsd = {}
+    m = re.search(r"Definition xsd_attrs .*?:= \[(.*?)\]\.\n", s, re.S)
+    for e in re.finditer(r'\("([^"]*)", \[(.*?)\]\)(?:;|$)', m.group(1), re.M):
+        xsd[e.group(1)] = [(a, r == "true") for a, r in re.findall(r'\("([^"]*)", (true|false)\)', e.group(2))]
+    return tbl, xsd
+
+
+def k_attributes(ctx, exe):
+    """one more attribute on one element of a valid document: the regenerated table of the handler (evaluated in Coq:
+    GkfRun.attr_verdict) says whether the name is refused; the parser must refuse exactly those, on the element's line"""
+    tags, name = read_tags()
+    rng = ctx.rng
+    tbl, xsd = attr_tables()
+    pool = sorted({a for l in tbl.values() if l for a in l} | {a for al in xsd.values() for a, _ in al} | {"foo", "ID", "From", "x1", "valu", "std-dev", "xmlns:q"})
+    pool.remove("xmlns:q")
+    cases = []
+    n = 400 if ctx.quick else 8000
+    T = {t: 2 + i for i, t in enumerate(tags)}
+    tries = 0
+    while len(cases) < n and tries < 20 * n:
+        tries += 1
+        w = random_document(rng, tags)
+        text, sem = render(w, tags, name)
+        if sem is not None:
+            continue
+        opens = [j for j, c in enumerate(w) if c >= 2]
+        j = rng.choice(opens)
+        t = tags[w[j] - 2]
+        el = name[t]
+        # aim half of the cases at the names the schema declares for this element, the rest at the whole pool
+        a = rng.choice([x for x, _ in xsd.get(el, [])] or pool) if rng.random() < 0.5 else rng.choice(pool)
+        lines = text.split("\n")
+        ln = lines[j + 1]
+        if re.search(r'\s%s="' % re.escape(a), ln):
+            continue                                   # already there (a repeated attribute is not well-formed XML)
+        val = attr_value(el, a)
+        lines[j + 1] = ln[:-1] + ' %s="%s">' % (a, val)
+        cases.append((w, j, a, "\n".join(lines), el))
+    v = "From Coq Require Import List String.\nFrom Gama Require Import GkfRun.\nImport ListNotations.\nLocal Open Scope string_scope.\n" \
+        "Definition cs : list (list nat * nat * string) := [\n%s\n].\n" % ";\n".join(
+            '([%s], %d, "%s")' % ("; ".join(str(c) for c in w), j, a) for w, j, a, _, _ in cases) + \
+        'Goal True. idtac "@@ATTR". Abort.\nEval vm_compute in map attr_verdict cs.\n'
+    rc, cout = vlib.coq_run(v, ctx.scratch, name="cases_c11_attr", timeout=1800)
+    ctx.checker_cmds.append("coqc -Q coq Gama cases_c11_attr.v   (GkfRun.attr_verdict on %d documents with one more attribute)" % len(cases))
+    got = vlib.parse_coq_list(cout, "@@ATTR") if rc == 0 else None
+    if got is None or len(got) != len(cases):
+        ctx.obligation(False, "K:attributes model")
+        ctx.violation({"kind": "K:gkf-attributes", "broken": "GkfRun.attr_verdict did not evaluate", "tail": cout[-800:]}, "cases file failed", no_input=True)
+        return
+    rc, lines, err = run_gkf(exe, [("D", c[3]) for c in cases])
+    lines = [l for l in lines if l]
+    if rc != 0 or len(lines) != len(cases):
+        k = len(lines)
+        ctx.obligation(False, "K:attributes harness")
+        ctx.violation({"kind": "K:gkf-attributes", "input": cases[k][3] if k < len(cases) else None, "rc": rc, "stderr": err[-3000:]},
+                      "GKFparser harness died (rc %d) on a document with one more attribute: %s" % (rc, (err.strip().splitlines() or ["?"])[0][:200]))
+        return
+    bad = 0
+    for (w, j, a, text, el), mv, ln in zip(cases, got, lines):
+        ctx.count(("attr", el, a, j, tuple(w)), nontrivial=True)
+        wds = ln.split()
+        accepted = wds[0] == "ok"
+        line = int(wds[1]) if wds[0] == "exc" else None
+        msg = vlib_hex(wds[3]) if wds[0] == "exc" and len(wds) > 3 else ""
+        declared = a in [x for x, _ in xsd.get(el, [])]
+        ctx.hist("attribute_cases", ("declared " if declared else "other ") + mv.replace("Some ", ""))
+        why = None
+        if mv not in ("Some true", "Some false"):
+            why = "the model does not reach the element (attr_verdict = %s)" % mv
+        elif wds[0] not in ("ok", "exc"):
+            why = "unexpected exception class: %s" % ln[:200]
+        elif mv == "Some false":
+            if accepted:
+                why = "<%s %s=...> is accepted although the handler's table does not list the name" % (el, a)
+            elif line != j + 2 or not msg.strip():
+                why = "<%s %s=...> refused at line %s (%r), the element is on line %d" % (el, a, line, msg, j + 2)
+        else:
+            if not accepted and UNDEF_ATTR.search(msg):
+                why = "<%s %s=...> is refused as an unknown attribute (line %s: %s) although the handler's table lists the name" % (el, a, line, msg)
+            elif not accepted and (line is None or line < j + 2 or not msg.strip()):
+                why = "<%s %s=\"%s\"> refused without a diagnostic located at or after the element (line %s, %r)" % (el, a, attr_value(el, a), line, msg)
+            elif declared and not accepted and a in ATTR_VALUE and a not in ("from", "to", "bs", "fs", "id", "fix", "adj"):
+                why = "a document of the documented grammar is refused: <%s %s=\"%s\">: line %s: %s" % (el, a, attr_value(el, a), line, msg)
+        if why:
+            bad += 1
+            if bad <= 5:
+                ctx.violation({"kind": "K:gkf-attributes", "input": text, "element": el, "attribute": a, "model": mv, "parser": ln}, why)
+    ctx.obligation(bad == 0, "K:gkf-attributes %d documents" % len(cases))
+    ctx.sample({"attribute_case": cases[len(cases) // 2][3][-400:], "model": got[len(cases) // 2], "parser": lines[len(cases) // 2]})
+
+
+def xsd_attribute_witnesses(ctx, exe):
+    """search for a failing input when Properties_C11's attribute theorem no longer checks: every attribute the schema
+    declares that the regenerated handler tables do not list, put into a minimal document"""
+    tags, name = read_tags()
+    tbl, xsd = attr_tables()
+    elem_of = {t: name[t] for t in tags if t in name}
+    found = 0
+    for (st, t), names in sorted(tbl.items()):
+        if names is None:
+            continue
+        el = elem_of.get(t)
+        for a, _ in xsd.get(el, []):
+            if a in names:
+                continue
+            # a minimal document that opens the element in that state
+            T = {x: 2 + i for i, x in enumerate(tags)}
+            path = {"state_start": [], "state_gama_xml": ["tag_gama_xml"], "state_network": ["tag_gama_xml", "tag_network"],
+                    "state_point_obs": ["tag_gama_xml", "tag_network", "tag_points_observations"]}
+            par = {"state_obs": "tag_obs", "state_coords": "tag_coordinates", "state_hdiffs": "tag_height_differences", "state_vectors": "tag_vectors"}
+            if st in path:
+                pre = path[st]
+            elif st in par:
+                pre = path["state_point_obs"] + [par[st]]
+            else:
+                continue
+            w = [T[x] for x in pre] + [T[t]]
+            j = len(w) - 1
+            w += [0] * len(w)
+            text, _ = render(w, tags, name)
+            ls = text.split("\n")
+            ls[j + 1] = ls[j + 1][:-1] + ' %s="%s">' % (a, attr_value(el, a))
+            doc = "\n".join(ls)
+            rc, out, err = run_gkf(exe, [("D", doc)])
+            ln = ([l for l in out if l] or ["?"])[0]
+            if ln.split()[0] != "ok" and UNDEF_ATTR.search(vlib_hex(ln.split()[3]) if len(ln.split()) > 3 else ""):
+                found += 1
+                ctx.violation({"kind": "K:gkf-attributes", "input": doc, "element": el, "attribute": a, "parser": ln, "broken": "C11_xsd_attribute_names_are_accepted"},
+                              "xml/gama-local.xsd declares %s for <%s>, the parser refuses it: %s" % (a, el, vlib_hex(ln.split()[3])))
+    return found
+
+
+# ------------------------------------------------------------------------------------------------
 # E: the executables under sanitizers
 
 SAN_MARK = re.compile(r"AddressSanitizer|runtime error:|LeakSanitizer|UndefinedBehaviorSanitizer|SUMMARY: ")
@@ -735,6 +887,9 @@ def run(ctx):
     exe = vlib.compile_harness("harness/gkf.cpp", link_gama=True, sanitize=True)
     v0 = ctx.violations
     accepted_docs = k_events(ctx, exe, proofs_ok) or []
+    k_attributes(ctx, exe)
+    if not proofs_ok:
+        xsd_attribute_witnesses(ctx, exe)
     k_chunks(ctx, exe, accepted_docs)
     k_encodings(ctx, exe)
     k_dataparser_chunks(ctx)
